@@ -1216,7 +1216,7 @@ def _same_item(a, b, budget, asg=None):
             tx = x.text(asg) if isinstance(x, V) else x
             ty = y.text(asg) if isinstance(y, V) else y
             if tx != ty:
-                if isinstance(x, V) and isinstance(y, V) and _same_by_cases(x, y, asg or {}):
+                if isinstance(x, V) and isinstance(y, V) and (_same_by_cases(x, y, asg or {}) or _bool_equal(x.node, y.node, asg or {})):
                     continue
                 return False
         return True
@@ -1234,6 +1234,41 @@ def _same_item(a, b, budget, asg=None):
                 return False
         return same(a[3], b[3], {}, budget) and same(a[4], b[4], {}, budget)
     return a == b
+
+
+def _bool_shaped(n):
+    """Does the expression evaluate to a genuine bool (so that only its truth value matters)?"""
+    if isinstance(n, ast.Constant):
+        return isinstance(n.value, bool)
+    if isinstance(n, ast.UnaryOp) and isinstance(n.op, ast.Not):
+        return True
+    if isinstance(n, ast.Compare):
+        return True
+    if isinstance(n, ast.BoolOp):
+        return all(_bool_shaped(v) for v in n.values)
+    if isinstance(n, ast.IfExp):
+        return _bool_shaped(n.body) and _bool_shaped(n.orelse)
+    return False
+
+
+def _bool_equal(xn, yn, asg):
+    """Two bool-valued expressions with the same truth table over their atoms (given the branch facts ``asg``)."""
+    import itertools
+
+    from .symexec import bool_atoms, bool_eval
+
+    if not (_bool_shaped(xn) and _bool_shaped(yn)):
+        return False
+    atoms = sorted(a for a in (bool_atoms(xn) | bool_atoms(yn)) if a not in asg)
+    if len(atoms) > 7:
+        return False
+    for vals in itertools.product([False, True], repeat=len(atoms)):
+        full = dict(asg)
+        full.update(zip(atoms, vals))
+        bx, by = bool_eval(xn, full), bool_eval(yn, full)
+        if bx is None or by is None or bx != by:
+            return False
+    return True
 
 
 def _same_by_cases(x, y, asg):
